@@ -139,6 +139,11 @@ def check(an, rep, tier):
         for s in r.I.sites:
             if s.rule in ('G-div', 'G-log') and s.status == 'ok':
                 rep.ok(s.rule, s.where, s.construct, detail=s.detail)
+            if s.rule == 'G-sqrt' and s.status in ('ok', 'violation') and \
+                    s.where in ('svd.matrix_svd', 'svd.matrix_skeleton'):
+                rep.add('G-sqrt', s.where, s.construct, s.status, s.detail,
+                        line=getattr(s.node, 'lineno', None),
+                        file=s.mod.path if s.mod else None)
             if s.rule == 'K-empty':
                 # an emptiness test that cannot fire lets the mean of an empty
                 # selection (NaN) into the cores
